@@ -1466,6 +1466,102 @@ fn connect_phase(connack: &rc::Connack, auth: Option<&rc::Auth>, cut: Option<u16
 
 pub struct C16;
 
+/// One script, two executors: a subscription with its stream, `n` QoS 1 publishes in flight, then
+/// the transport reports ONE error of the given kind, then the acknowledgements and a message
+/// arrive. Executor A polls only
+/// woken tasks; executor B additionally polls every task after every step.
+fn c16_transient_fault(kind: usize, n: usize) -> Option<Failure> {
+    use crate::world::World;
+    const KINDS: [std::io::ErrorKind; 7] = [
+        std::io::ErrorKind::ConnectionReset,
+        std::io::ErrorKind::Interrupted,
+        std::io::ErrorKind::UnexpectedEof,
+        std::io::ErrorKind::TimedOut,
+        std::io::ErrorKind::ConnectionAborted,
+        std::io::ErrorKind::Other,
+        std::io::ErrorKind::BrokenPipe,
+    ];
+    let plan = WritePlan::default();
+    let mut prints = vec![];
+    for sweeping in [false, true] {
+        let mut w = World::new();
+        if connect_and_run(&mut w, ConnectSpec::default(), &default_connack(), &plan).is_err() {
+            return None;
+        }
+        let step = |w: &mut World| {
+            settle(w, &plan, true);
+            if sweeping {
+                w.sweep(true);
+                settle(w, &plan, true);
+            }
+        };
+        let mut tr = Tracker::new();
+        tr.skip_existing(&mut w);
+        let s = w.start_op(0, OpSpec::Subscribe(tagged_subscribe(0, 1))).unwrap();
+        step(&mut w);
+        tr.update(&mut w);
+        let Some(spid) = tr.pid(s) else { return None };
+        let sid = tr.sub_id(s);
+        feed_packet(&mut w, &rc::Packet::Suback(rc::AckList { pid: spid, reasons: vec![0], ..Default::default() }), &rc::Form::canonical());
+        step(&mut w);
+        w.make_stream(s);
+        let mut pids = vec![];
+        for k in 0..n {
+            let op = w.start_op(0, OpSpec::Publish(tagged_publish(10 + k, 1))).unwrap();
+            step(&mut w);
+            tr.update(&mut w);
+            match tr.pid(op) {
+                Some(p) => pids.push(p),
+                None => return None,
+            }
+        }
+        // the fault
+        w.tick();
+        w.reader.set_err_once(KINDS[kind % KINDS.len()]);
+        step(&mut w);
+        // traffic after the fault
+        for p in &pids {
+            feed_packet(&mut w, &rc::Packet::Puback(rc::Ack { pid: *p, ..Default::default() }), &rc::Form::short());
+            step(&mut w);
+        }
+        feed_packet(
+            &mut w,
+            &rc::Packet::Publish(rc::Publish { qos: 1, pid: Some(77), topic: "after/fault".into(), payload: b"m".to_vec(), subscription_ids: sid.into_iter().collect(), ..Default::default() }),
+            &rc::Form::canonical(),
+        );
+        step(&mut w);
+        if let Some(p) = first_panic(&w) {
+            return Some(Failure { sig: format!("PANIC/{}", panic_sig(&p)), msg: p });
+        }
+        for i in 0..w.streams.len() {
+            w.drain_stream(i);
+        }
+        let results: Vec<_> = w.ops.iter().map(|o| o.res.clone()).collect();
+        prints.push((w.writer.data().to_vec(), results, w.streams.iter().map(|s| s.items.len()).collect::<Vec<_>>(), w.run_result.clone()));
+    }
+    if prints[0] != prints[1] {
+        let what = if prints[0].3 != prints[1].3 {
+            "run"
+        } else if prints[0].1 != prints[1].1 {
+            "results"
+        } else if prints[0].2 != prints[1].2 {
+            "stream-items"
+        } else {
+            "wire"
+        };
+        return Some(Failure {
+            sig: format!("C16/trace-differs/transient-read-fault/{what}"),
+            msg: format!(
+                "one transient read error ({:?}) with {n} QoS 1 publish(es) in flight: the wake-only executor ends with run()={:?}, results {:?}, stream items {:?}, {} bytes written; the executor that also polls unwoken tasks ends with run()={:?}, results {:?}, stream items {:?}, {} bytes written",
+                KINDS[kind % KINDS.len()],
+                prints[0].3, prints[0].1, prints[0].2, prints[0].0.len(),
+                prints[1].3, prints[1].1, prints[1].2, prints[1].0.len()
+            ),
+        });
+    }
+    None
+}
+
 #[derive(Clone, Debug, Serialize, Deserialize)]
 pub struct C16Case {
     pub scn: Scenario,
@@ -1599,6 +1695,14 @@ impl Property for C16 {
                 }
             }
         }
+        // a transient transport fault (every error kind) in the middle of traffic: whatever the
+        // library makes of it, wake-only and sweeping executors must see the same
+        let h = case_hash(case);
+        if let Some(f) = c16_transient_fault((h % 7) as usize, 1 + (h / 7 % 3) as usize) {
+            o.fail = Some(f);
+            return o;
+        }
+        o.class("transient-read-fault-script");
         o.nontrivial = split >= 1 && completions >= 1;
         if split > 0 {
             o.class("inbound-packet-split-over-reads");
